@@ -122,6 +122,7 @@ func runC06(w *World, r *Report) {
 	// capacity rules of C09: a violation there is a panic here
 	ruleOrder(w, r)
 	kc, kn := ruleCheckConstants(w, r)
+	ruleCheckAll(w, r)
 	ruleWidth(w, r, kc, kn)
 	ruleGrow(w, r)
 	ruleStackClass(w, r)
